@@ -980,6 +980,13 @@ pub fn render(l: &Logical, cfg: &Cfg, sp: &mut Speller, ov: &Overrides) -> (Wire
         uri.push(b'?');
         uri.extend_from_slice(&qs);
     }
+    if sp.vary(1, 12) && uri.first() == Some(&b'/') {
+        // absolute-form request target (proxies, HTTP/2 gateways): scheme and authority are not part of what is signed
+        let opts: [&[u8]; 4] = [b"http://example.amazonaws.com", b"https://example.amazonaws.com:8443", b"http://h", b"HTTPS://EXAMPLE.com"];
+        let mut u = sp.r.pick_bytes(&opts).to_vec();
+        u.extend_from_slice(&uri);
+        uri = u;
+    }
     if let Some(u) = &ov.uri_override {
         uri = u.clone();
     }
@@ -990,6 +997,9 @@ pub fn render(l: &Logical, cfg: &Cfg, sp: &mut Speller, ov: &Overrides) -> (Wire
     } else {
         0
     };
+    if sp.vary(1, 4) {
+        w.version = sp.r.below(5) as u8;
+    }
     let mut lines: Vec<(Vec<u8>, Vec<u8>)> = Vec::new();
     // header groups keep the order of their own values; groups are shuffled
     let mut groups: Vec<Vec<(Vec<u8>, Vec<u8>)>> = Vec::new();
